@@ -1,5 +1,5 @@
 """C20 — Failed store operations leave the store unchanged."""
-from engine.rules import Has, call_expr, call_result_honoured, edge_call_truth, exit_sites, never_after, require_guard, root_fn
+from engine.rules import Has, call_expr, call_result_honoured, edge_call_truth, result_ok_edge, exit_sites, never_after, require_guard, root_fn
 from engine.mir import call_matches, callee_of, has_leaf
 from rules.storelib import IM, RB, memory_writes, redb_write_sites
 
@@ -100,11 +100,11 @@ def run(ctx):
         pol = None
         if ok:
             conds = [(s, lab) for s, lab, d in wt.edge_conditions(com[0])]
-            pol = [edge_call_truth(ctx, wt, s, lab, ["*Result*::is_ok"]) for s, lab in conds if has_leaf(ctx.leaves(wt.switch_discr_expr(s)), "call:*FnOnce::call_once")]
+            pol = [result_ok_edge(ctx, wt, s, lab) for s, lab in conds if has_leaf(ctx.leaves(wt.switch_discr_expr(s)), "call:*FnOnce::call_once")]
             conds2 = [(s, lab) for s, lab, d in wt.edge_conditions(ab[0])]
-            pol2 = [edge_call_truth(ctx, wt, s, lab, ["*Result*::is_ok"]) for s, lab in conds2 if has_leaf(ctx.leaves(wt.switch_discr_expr(s)), "call:*FnOnce::call_once")]
+            pol2 = [result_ok_edge(ctx, wt, s, lab) for s, lab in conds2 if has_leaf(ctx.leaves(wt.switch_discr_expr(s)), "call:*FnOnce::call_once")]
             ok = pol == [True] and pol2 == [False]
-        ctx.check(ok, "C20.redb.commit-on-ok", wt.path, "commit only on the is_ok edge of the closure's result, abort on the other", site=wt.loc(com[0]) if com else None, key="C20.redb.commit-on-ok")
+        ctx.check(ok, "C20.redb.commit-on-ok", wt.path, "commit only on the Ok edge of the closure's result, abort on the other", site=wt.loc(com[0]) if com else None, key="C20.redb.commit-on-ok")
         for c in com:
             call_result_honoured(ctx, wt, c, "C20.redb.commit-checked", "?tx.commit()")
         ex = [x for x in exit_sites(wt) if x["kind"] in ("accept", "may")]
